@@ -197,10 +197,13 @@ structure Ctx where
   ss : Schemas
   cur : String           -- formatPackageName of the schema being printed
 
-def Ctx.fuel (c : Ctx) : Nat := c.ss.objectCount + 1
+def Ctx.fuel (c : Ctx) : Nat := c.ss.objectCount + 2
 
-/-- `packageMapper`: "" (same package) is represented by the current package itself -/
-def Ctx.mapPkg (c : Ctx) (pkg : String) : String := if fmtPkg pkg == c.cur then c.cur else fmtPkg pkg
+/-- `packageMapper`: it answers "" when `IsIdentical(pkg, schema.Package)` (equal FORMATTED names) and the
+    formatted alias otherwise.  Either way the Go compiler resolves the name in the package whose
+    formatted name is `fmtPkg pkg`, which is what the syntax records (the renderer decides whether a
+    qualifier is printed). -/
+def Ctx.mapPkg (_c : Ctx) (pkg : String) : String := fmtPkg pkg
 
 /-- `context.ResolveRefs` (none: alias cycle, Go overflows its stack) -/
 def Ctx.resolve (c : Ctx) (t : Ty) : Option Ty := c.ss.resolveToType c.fuel t
